@@ -204,9 +204,26 @@ def groups(tier, seed):
             for order in ('ab', 'ba'):
                 for mode in ('', 'dfs'):
                     yield {'kind': 'two-roots', 'fa': fa, 'fb': fb, 'order': order, 'mode': mode, 'layer': 'two-roots'}
+    yield from link_history_groups()
+
+
+LH_COLS = [[], ['width'], ['height', 'duration'], ['size', 'is_dir'], ['sha1'], ['mime', 'width']]
+
+
+def link_history_groups():
+    # what was looked at before a link is met must not decide whether it is followed: columns that look through links, entries above the
+    # depth window, links whose texts name the same place from different directories
+    for scen in ('earlier-root', 'lexical-twin'):
+        for ci in range(len(LH_COLS)):
+            for mind in (None, 2, 3):
+                for mode in ('', 'dfs'):
+                    for rd in ('sorted', 'rev'):
+                        yield {'kind': 'link-history', 'scen': scen, 'cols': ci, 'mind': mind, 'mode': mode, 'rd': rd, 'layer': 'link-history'}
 
 
 def single(case):
+    if case.get('kind') == 'link-history':
+        return {k: case[k] for k in ('kind', 'scen', 'cols', 'mind', 'mode', 'rd', 'layer')}
     if case.get('kind') == 'two-roots':
         return {k: case[k] for k in ('kind', 'fa', 'fb', 'order', 'mode', 'layer')}
     if case.get('kind') == 'odd-names':
@@ -358,7 +375,77 @@ def eval_odd_names(env, group):
     return outs
 
 
+def eval_link_history(env, group):
+    holder = env.newdir('c18h')
+    png = (b'\x89PNG\r\n\x1a\n' + b'\x00\x00\x00\rIHDR' + (3).to_bytes(4, 'big') + (2).to_bytes(4, 'big') + b'\x08\x02\x00\x00\x00' + b'\x00' * 4)
+    if group['scen'] == 'earlier-root':
+        core.materialise(holder, {'pics': D({'p.png': F(data=png), 'q.txt': F(2)}), 'dirs': D({'sub': D({'s.png': F(data=png)})}),
+                                  'store': D({'d': D({'img.png': F(data=png), 'deeper': D({'z': F(1)})}), 'f1': F(1)}),
+                                  'albums': D({'trip': L('../store'), 'gone': L('../nowhere'), 'file': L('../pics/q.txt'), 'k': F(1)})})
+        roots = ['pics', 'albums', 'dirs', 'albums']        # the root with the links comes after a root of files and after a root of directories
+        variants = [['pics', 'albums'], ['dirs', 'albums'], ['albums'], ['pics', 'dirs', 'albums']]
+    else:
+        core.materialise(holder, {'root': D({'aaa': L('shared'), 'pkgs': L('../store/v1'), 'zzz': L('shared'), 'mid': D({'m': F(1)})}),
+                                  'store': D({'v1': D({'lib': L('../shared'), 'bin': D({'b': F(1)})}), 'shared': D({'s1': F(1), 'sd': D({'s2': F(1)})})}),
+                                  'root2': D({'shared': D({'r2': F(1)}), 'pk': L('../store/v1'), 'own': L('shared')})})
+        variants = [['root'], ['root2'], ['root', 'root2'], ['root2', 'root']]
+    outs = []
+    try:
+        cols = LH_COLS[group['cols']]
+        for rootlist in variants:
+            opts = ' symlinks' + (' mindepth %d' % group['mind'] if group['mind'] else '') + (' ' + group['mode'] if group['mode'] else '')
+            q = ['%s from %s into list' % (', '.join(['path'] + cols), ', '.join(r + opts for r in rootlist))]
+            o = env.run(q, cwd=holder, timeout=10.0, preload=True, env={'FSX_READDIR': group['rd']})
+            visited, exp = set(), []
+            for r in rootlist:
+                start = os.path.realpath(os.path.join(holder, r))
+                visited.add(start)
+                queue = [(start, 1)]
+                while queue:
+                    d, lvl = queue.pop(0)
+                    for n in sorted(os.listdir(d)):
+                        p = os.path.join(d, n)
+                        if lvl >= (group['mind'] or 1):
+                            exp.append((d, n))
+                        if os.path.isdir(p):
+                            t = os.path.realpath(p)
+                            if t not in visited:
+                                visited.add(t)
+                                queue.append((t, lvl + 1))
+            exp.sort()
+            case = dict(group, argv=q)
+            r_ = {'case': case, 'layer': 'link-history', 'nt': True, 'trans': len(exp) + 1}
+            rows = o.rows(1 + len(cols))
+            if o.timeout:
+                r_.update(status='viol', cls='no-termination', detail=dict(o.brief(), argv=q), sig=('hang',))
+            elif o.panicked or o.rc not in (0, 1, 2) or rows is None:
+                r_.update(status='viol', cls='crash', detail=dict(o.brief(), argv=q), sig=('crash',))
+            else:
+                got = []
+                for row in rows:
+                    p = row if isinstance(row, str) else row[0]
+                    ap = os.path.normpath(os.path.join(holder, p))
+                    got.append((os.path.realpath(os.path.dirname(ap)), os.path.basename(ap)))
+                got.sort()
+                if got != exp:
+                    rel = lambda x: os.path.relpath(os.path.join(*x), holder)
+                    missing, extra = [x for x in exp if x not in got], [x for x in got if x not in exp]
+                    cls = 'rows-behind-link-missing' if missing and not extra else 'rows-extra' if extra and not missing else 'rows-differ'
+                    r_.update(status='viol', cls='link-history:' + cls, sig=('rows', cls),
+                              detail={'argv': q, 'missing': list(map(rel, missing))[:6], 'extra': list(map(rel, extra))[:6], 'rd': group['rd']})
+                elif o.rc != 0 or o.err:
+                    r_.update(status='viol', cls='status-or-stderr-with-nothing-unreadable', detail=dict(o.brief(), argv=q), sig=('rc', o.rc))
+                else:
+                    r_.update(status='ok', sig=tuple(got))
+            outs.append(r_)
+    finally:
+        env.rmtree(holder)
+    return outs
+
+
 def eval_group(env, group, tier):
+    if group.get('kind') == 'link-history':
+        return eval_link_history(env, group)
     if group.get('kind') == 'two-roots':
         return eval_two_roots(env, group)
     if group.get('kind') == 'odd-names':
